@@ -59,3 +59,4 @@
   (ite (<= i 0) 0 (+ (ukLen u c (- i 1)) (ite (= (extUrl (select (arr_Int c) (- i 1))) u) 0 1))))
 (declare-fun extRefl (Int) Any)
 (declare-fun patchUnwrapS (Any) Any)
+(declare-fun foUnwrapS (Any) Any)
